@@ -215,7 +215,13 @@ static char *emit_mu_state (struct emit_buf *b, nsync_mu *mu,
                 emit_waiters (b, mu->waiters);
         }
         if (acquired) {
-                ATM_STORE_REL (&mu->word, word); /* release store */
+                /* Release the spinlock with a CAS loop, as mu.c does: other
+                   threads may change the other bits of mu->word while only
+                   the spinlock is held, so the value read above is stale.  */
+                uint32_t old_word = ATM_LOAD (&mu->word);
+                while (!ATM_CAS_REL (&mu->word, old_word, old_word & ~MU_SPINLOCK)) {
+                        old_word = ATM_LOAD (&mu->word);
+                }
         }
         emit_c (b, 0);
         IGNORE_RACES_END ();
